@@ -212,7 +212,11 @@ func (w *world) dump(ctx sdk.Context) dstate {
 		if err != nil {
 			return true, err
 		}
-		d.Queue = append(d.Queue, qrow{ID: id, Rcp: w.userIndex(u.Address), Time: u.CompletionTime.UnixNano(), Amt: u.Amount.Amount.BigInt()})
+		amt := big.NewInt(0)
+		if !u.Amount.Amount.IsNil() {
+			amt = u.Amount.Amount.BigInt()
+		}
+		d.Queue = append(d.Queue, qrow{ID: id, Rcp: w.userIndex(u.Address), Time: u.CompletionTime.UnixNano(), Amt: amt})
 		return false, nil
 	})
 	if err != nil {
